@@ -111,6 +111,12 @@ MUTATIONS = {
         old="            cell_height = height // r_height\n",
         new="            cell_height = self._pixels_lines(lines=1)\n",
     ),
+    "c03-stale-frame-on-rewind": dict(  # seeded/C03-u2: needs a PIL-sourced animation rendered twice
+        file="image/common.py", props=["C03"],
+        old="        if self._is_animated:\n            img.seek(self._seek_position)\n        if not size:",
+        new="        if self._is_animated and (frame or self._seek_position):\n"
+            "            img.seek(self._seek_position)\n        if not size:",
+    ),
     "c03-kitty-whole-at-render-size": dict(
         file="image/kitty.py", props=["C03"],
         old="self._get_minimal_render_size()\n            if render_method == WHOLE",
